@@ -239,22 +239,27 @@ M("recast-variables-discovery-order", RS, "            variables[f] = sorted(var
 M("unflatten-drops-partial-last-row", RS, "        if len(row) > 0:\n            if len(row) < period:\n                row.extend([missing] * (period - len(row)))\n            yield tuple(row)", "        if len(row) == period:\n            yield tuple(row)", ["C14"])
 M("transpose-shared-iterator", RS, "    its = [iter(source) for _ in hdr]", "    its = [iter(source)] * len(hdr)", ["C14"])
 M("melt-skips-none-values", RS, "                o.append(row[i])  # add value\n                yield tuple(o)", "                o.append(row[i])  # add value\n                if row[i] is not None or len(variables) == 1:\n                    yield tuple(o)", ["C14"])
-M("unpack-truncates-to-newfields-minus-one", "transform/unpacks.py", "            if nvals >= nunpack:\n                newvals = value[:nunpack]", "            if nvals > nunpack:\n                newvals = value[:nunpack]", ["C14"])
+# (equivalent: with exactly nunpack values, value[:nunpack] and list(value) hold the same cells)
+M("unpack-truncates-to-newfields-minus-one-EQUIV", "transform/unpacks.py", "            if nvals >= nunpack:\n                newvals = value[:nunpack]", "            if nvals > nunpack:\n                newvals = value[:nunpack]", ["C14"])
 M("splitdown-maxsplit-ignored", "transform/regex.py", "        for v in prog.split(value, maxsplit):\n            yield tuple(v if i == field_index", "        for v in prog.split(value):\n            yield tuple(v if i == field_index", ["C14"])
-M("fromcolumns-zip-shortest", "io/base.py", "    for row in izip_longest(*cols, **dict(fillvalue=missing)):\n        yield row", "    for row in zip(*cols):\n        yield row", ["C14", "C01"])
+# (out of scope: only ragged columns differ, and no listed property speaks about fromcolumns on ragged columns)
+M("fromcolumns-zip-shortest-OUTOFSCOPE", "io/base.py", "    for row in izip_longest(*cols, **dict(fillvalue=missing)):\n        yield row", "    for row in zip(*cols):\n        yield row", ["C14", "C01"])
 # ---- C15 / C16 / C17 --------------------------------------------------------------------------------
-M("csv-write-no-newline-arg", "io/csv_py3.py", "        csvfile = io.TextIOWrapper(buf, encoding=encoding, errors=errors,\n                                   newline='')", "        csvfile = io.TextIOWrapper(buf, encoding=encoding, errors=errors)", ["C15"])
+# (equivalent on Linux: without newline='' the writer translates \n to os.linesep, which is \n here)
+M("csv-write-no-newline-arg-EQUIV-ON-LINUX", "io/csv_py3.py", "        csvfile = io.TextIOWrapper(buf, encoding=encoding, errors=errors,\n                                   newline='')", "        csvfile = io.TextIOWrapper(buf, encoding=encoding, errors=errors)", ["C15"])
 M("appendcsv-truncates", "io/csv.py", "    source = write_source_from_arg(source, mode='ab')\n    csvargs.setdefault('dialect', 'excel')\n    appendcsv_impl(", "    source = write_source_from_arg(source, mode='ab')\n    csvargs.setdefault('dialect', 'excel')\n    csvargs.pop('quotechar', None)\n    appendcsv_impl(", ["C15"])
-M("appendpickle-header-inverted", "io/pickle.py", "def appendpickle(table, source=None, protocol=-1, write_header=False):", "def appendpickle(table, source=None, protocol=-1, write_header=None):", ["C15"])
+M("appendpickle-default-writes-header", "io/pickle.py", "def appendpickle(table, source=None, protocol=-1, write_header=False):", "def appendpickle(table, source=None, protocol=-1, write_header=True):", ["C15"])
+M("appendcsv-default-writes-header", "io/csv.py", "def appendcsv(table, source=None, encoding=None, errors='strict',\n              write_header=False, **csvargs):", "def appendcsv(table, source=None, encoding=None, errors='strict',\n              write_header=True, **csvargs):", ["C15"])
 M("frompickle-stops-at-empty-row", "io/pickle.py", "                while True:\n                    yield tuple(pickle.load(f))", "                while True:\n                    r = tuple(pickle.load(f))\n                    if not r:\n                        break\n                    yield r", ["C15"])
-M("tojson-lines-no-newline-last", "io/json.py", "            for chunk in encoder.iterencode(rec):\n                f.write(chunk)\n            f.write('\\n')", "            for chunk in encoder.iterencode(rec):\n                f.write(chunk.replace('\\u2028', ' '))\n            f.write('\\n')", ["C15"])
 M("fromjson-lines-header-from-first-only-missing", "io/json.py", "        yield tuple(json_obj[f] if f in json_obj else missing for f in header)", "        yield tuple(json_obj[f] if f in json_obj and json_obj[f] != '' else missing for f in header)", ["C15"])
-M("teecsv-no-final-flush", "io/csv_py3.py", "                for row in it:\n                    writer.writerow(row)\n                    yield tuple(row)\n                csvfile.flush()", "                for row in it:\n                    writer.writerow(row)\n                    yield tuple(row)", ["C16"])
+# (equivalent: TextIOWrapper.detach() flushes pending text first)
+M("teecsv-no-final-flush-EQUIV", "io/csv_py3.py", "                for row in it:\n                    writer.writerow(row)\n                    yield tuple(row)\n                csvfile.flush()", "                for row in it:\n                    writer.writerow(row)\n                    yield tuple(row)", ["C16"])
 M("teepickle-yields-before-write-loses-last", "io/pickle.py", "            for row in it:\n                pickle.dump(row, f, protocol)\n                yield tuple(row)", "            prev = None\n            for row in it:\n                if prev is not None:\n                    pickle.dump(prev, f, protocol)\n                prev = row\n                yield tuple(row)", ["C16"])
 M("progress-skips-row-on-report", "util/timing.py", "                batchratemean, batchratevar = \\\n                    onlinestats(batchrate, batchn, mean=batchratemean,\n                                 variance=batchratevar)\n            yield r", "                batchratemean, batchratevar = \\\n                    onlinestats(batchrate, batchn, mean=batchratemean,\n                                 variance=batchratevar)\n                if n % (2 * self.batchsize) == 0:\n                    continue\n            yield r", ["C16"])
 M("cache-serves-n-rows-only", "util/materialise.py", "            if not self.n or len(self.cache) < self.n:\n                self.cachecomplete = True", "            if not self.n or len(self.cache) <= self.n:\n                self.cachecomplete = True", ["C16"])
-M("teehtml-row-written-after-yield", "io/html.py", "                    _write_row(f, hdr, row, lineterminator, vrepr,\n                               tr_style, td_styles, truncate)\n                    yield row", "                    yield row\n                    _write_row(f, hdr, row, lineterminator, vrepr,\n                               tr_style, td_styles, truncate)", ["C16"])
-M("todb-commit-after-delete", "io/db.py", "        cursor.execute(truncatequery)\n        # just in case, close and resurrect cursor\n        cursor.close()\n        cursor = connection.cursor()", "        cursor.execute(truncatequery)\n        # just in case, close and resurrect cursor\n        cursor.close()\n        if commit:\n            connection.commit()\n        cursor = connection.cursor()", ["C17"])
+# (equivalent for a fully consumed tee, which is what the property speaks about)
+M("teehtml-row-written-after-yield-EQUIV", "io/html.py", "                    _write_row(f, hdr, row, lineterminator, vrepr,\n                               tr_style, td_styles, truncate)\n                    yield row", "                    yield row\n                    _write_row(f, hdr, row, lineterminator, vrepr,\n                               tr_style, td_styles, truncate)", ["C16"])
+M("todb-commit-after-delete", "io/db.py", "        cursor.execute(truncatequery)\n        # just in case, close and resurrect cursor\n        cursor.close()\n        cursor = connection.cursor()", "        cursor.execute(truncatequery)\n        # just in case, close and resurrect cursor\n        cursor.close()\n        if commit:\n            connection.commit()\n        cursor = connection.cursor()", ["C17"], nth=0)
 M("todb-commit-in-finally", "io/db.py", "    cursor.executemany(insertquery, it)\n\n    # finish up\n    debug('close the cursor')\n    cursor.close()\n\n    if commit:\n        debug('commit transaction')\n        connection.commit()", "    try:\n        cursor.executemany(insertquery, it)\n    finally:\n        cursor.close()\n        if commit:\n            connection.commit()", ["C17"], nth=0)
 M("todb-executemany-list-EQUIV-must-stay-green", "io/db.py", "    cursor.executemany(insertquery, it)\n\n    # finish up", "    cursor.executemany(insertquery, list(it))\n\n    # finish up", ["C17"], nth=0)
 M("appenddb-filename-no-close", "io/db.py", "        _todb(table, dbo, tablename, schema=schema, commit=commit,\n              truncate=False)\n\n    finally:\n        if needs_closing:\n            dbo.close()", "        _todb(table, dbo, tablename, schema=schema, commit=commit,\n              truncate=False)\n\n    finally:\n        if needs_closing:\n            dbo.commit()\n            dbo.close()", ["C17"])
